@@ -27,7 +27,9 @@ RULE = ("cases: bundled cones over their parameter ranges (ConeTheta2D θ=1°…
         "2–4 dimensions with 1…m+3 unit-normalised float rows (shapes: generic, pythagorean, narrow, "
         "redundant, non-pointed); cones with NON-unit rows (integer rows of harness/cones.py as given, rational rows, "
         "and random/θ/ice-cream cones with every row scaled by its own factor from {0.1,0.4,0.5,2,3.7,10}) incl. the "
-        "scaling law α_n(diag(c)W)=c_n·α_n(W) on the real code; non-trivial = every α_n and d₁ got a certified interval of width ≤ 1e-9 "
+        "scaling law α_n(diag(c)W)=c_n·α_n(W) on the real code; integer-dtype matrices (int64/int32 arrays and nested int "
+        "lists: identity 2…5, signed permutations, harness/cones.py rows, random integer rows) whose α must be a float "
+        "array inside the certified interval; non-trivial = every α_n and d₁ got a certified interval of width ≤ 1e-9 "
         "and the direction certificate is ≤ 1e-6; distinct by the exact W matrix")
 ASSUMPTIONS = [
     "cones have non-empty interior (every generated cone has an interior direction by construction)",
@@ -173,6 +175,29 @@ def gen(ctx):
     for _ in range(ctx.n(36, 3000)):
         yield _nonunit_case(rng, rng.choice(["scaled-random", "scaled-random", "rational", "exact",
                                              "scaled-theta", "scaled-ice"]))
+    # ---- integer-dtype cone matrices (what the class docstring passes: `np.array([[1, 0], [0, 1]])`)
+    intw = []
+    for d in range(2, 6):
+        eye = [[1 if i == j else 0 for j in range(d)] for i in range(d)]
+        for wt in ["int64", "list"] + (["int32"] if d <= 3 else []):
+            intw.append({"kind": "intw", "shape": "eye", "W": eye, "wtype": wt})
+    for name in sorted(EXACT_CONES):
+        intw.append({"kind": "intw", "shape": "exact", "W": [[int(t) for t in r] for r in EXACT_CONES[name][0]],
+                     "wtype": ["int64", "int32", "list"][len(intw) % 3]})
+    for c in intw:
+        if mine():
+            yield c
+    for _ in range(ctx.n(12, 1500)):
+        d = rng.randint(2, 5)
+        perm = list(range(d))
+        rng.shuffle(perm)
+        sp = [[(rng.choice([-1, 1]) if j == perm[i] else 0) for j in range(d)] for i in range(d)]
+        if rng.random() < 0.5:
+            yield {"kind": "intw", "shape": "signed-perm", "W": sp, "wtype": rng.choice(["int64", "int32", "list"])}
+        else:
+            rows = [[int(4 * t) for t in r] for r in _rand_cone(rng, rng.choice(SHAPES), normalise=False)]
+            if all(any(r) for r in rows):
+                yield {"kind": "intw", "shape": "random-int", "W": rows, "wtype": rng.choice(["int64", "int32", "list"])}
     # ---- random rational cones (unit-normalised rows)
     for _ in range(ctx.n(100, 9000)):
         shape = rng.choice(SHAPES)
@@ -326,6 +351,11 @@ def _build(case):
         return ConeOrder3DIceCream(case["deg"], case["K"])
     if k == "random":
         return PolyhedralConeOrder(OrderingCone(np.array(case["W"], dtype=float)))
+    if k == "intw":
+        rows = [[int(t) for t in r] for r in case["W"]]
+        wt = case["wtype"]
+        arg = rows if wt == "list" else np.array(rows, dtype=np.int64 if wt == "int64" else np.int32)
+        return PolyhedralConeOrder(OrderingCone(arg))
     if k == "nonunit":
         W0 = np.array(case["W0"], dtype=float)
         c = np.array(case["scale"], dtype=float)
@@ -371,11 +401,12 @@ def _bits_to_float(s):
 # ----------------------------------------------------------------------------- the check
 def run_case(ctx, case):
     kind = case["kind"]
-    ctx.count("kind_" + kind + ("_" + case["shape"] if kind in ("random", "nonunit") else ""))
+    ctx.count("kind_" + kind + ("_" + case["shape"] if kind in ("random", "nonunit", "intw") else ""))
     try:
         order = _build(case)
         cone = order.ordering_cone
         W = np.array(cone.W, dtype=float)
+        alpha_dtype = np.asarray(cone.alpha).dtype
         alpha = np.array(cone.alpha, dtype=float).reshape(-1)
     except Exception as e:
         ctx.violation("alpha-crash:" + core.exc_key(e), f"cone construction / get_alpha_vec raised {type(e).__name__}: {e}", case)
@@ -387,6 +418,13 @@ def run_case(ctx, case):
         ctx.violation("alpha-nonfinite", "alpha vector has the wrong shape or is not finite", case,
                       detail={"alpha": [repr(t) for t in alpha]})
         return
+    if kind == "intw":
+        ctx.count("wtype_" + case["wtype"])
+    if not np.issubdtype(alpha_dtype, np.floating):
+        # α_n is a real number (a maximum over the unit ball); an integer array can only hold its truncation
+        ctx.violation("alpha-integer-dtype", f"OrderingCone.alpha has dtype {alpha_dtype} (cone matrix given with an "
+                      "integer dtype): the stored α is the solver's value truncated to an integer", case,
+                      detail={"alpha": [repr(t) for t in alpha], "dtype": str(alpha_dtype)})
     Wq = [[_F(t) for t in row] for row in W]
     ws = core.qmat(W)
     good = True
